@@ -359,6 +359,22 @@ func spawn(p Property, o DriveOpts, exe string, from, to int, prefix string, env
 	return &b, false, tail
 }
 
+// lastInput returns the last call record (operation + input) logged for case idx.
+func lastInput(prefix string, idx int) string {
+	data, err := os.ReadFile(prefix + ".log")
+	if err != nil {
+		return ""
+	}
+	last := ""
+	want := fmt.Sprintf("input %d ", idx)
+	for _, l := range strings.Split(string(data), "\n") {
+		if v, ok := strings.CutPrefix(l, want); ok {
+			last = v
+		}
+	}
+	return last
+}
+
 func lastCall(prefix string) int {
 	data, err := os.ReadFile(prefix + ".log")
 	if err != nil {
@@ -425,7 +441,7 @@ func runBatch(p Property, o DriveOpts, agg *Agg, sp batchSpec, proc int, race bo
 		case strings.Contains(tail1, "MEMORY-CAP exceeded"):
 			agg.AddViolation(idx, "call consumes memory without bound (memory cap hit twice, also in isolation): unbounded recursion or allocation", map[string]any{"case": idx, "output_tail": tail1})
 		default:
-			agg.AddViolation(idx, "worker process died while executing this case (fatal error / unrecoverable panic)", map[string]any{"case": idx, "output_tail": tail1, "first_output_tail": tail})
+			agg.AddViolation(idx, "worker process died while executing this case (fatal error / unrecoverable panic): "+firstLine(tail1), map[string]any{"case": idx, "last_call_logged_before_death": json.RawMessage(orNull(lastInput(fmt.Sprintf("%s-iso%d", prefix, idx), idx))), "output_head": head(tail1, 1500)})
 		}
 		from = idx + 1
 	}
@@ -538,4 +554,27 @@ func driveReplay(p Property, o DriveOpts) int {
 	}
 	fmt.Printf("replay: case %d of %s no longer violates\n", w.Case, p.ID())
 	return 0
+}
+
+func firstLine(s string) string {
+	for _, l := range strings.Split(s, "\n") {
+		if strings.Contains(l, "fatal error") || strings.Contains(l, "panic:") {
+			return strings.TrimSpace(l)
+		}
+	}
+	return ""
+}
+
+func head(s string, n int) string {
+	if len(s) > n {
+		return s[:n]
+	}
+	return s
+}
+
+func orNull(s string) string {
+	if s == "" || !json.Valid([]byte(s)) {
+		return "null"
+	}
+	return s
 }
